@@ -94,6 +94,8 @@ def make_exc(spec, kind, info):
         return RecursionError("injected")
     if name == "MemoryError":
         return MemoryError("injected")
+    if name == "KeyboardInterrupt":
+        return KeyboardInterrupt("injected (a signal handler / cancellation raising a non-Exception BaseException)")
     raise AssertionError(spec)
 
 
